@@ -532,6 +532,13 @@ def summarize(pid, tier, seed, results, wall):
         "assumptions": sorted(assumptions) + STANDING_ASSUMPTIONS,
         "wall_s": round(wall, 2), "violations": violations,
     }
+    try:
+        mm = json.load(open(os.path.join(VERIF, "manifest_meta.json")))["claimed"].get(pid, {})
+        if mm.get("category") == "other":
+            evidence["level"] = "other"
+            evidence["coverage"]["explanation"] = mm["text"]
+    except Exception:
+        pass
     if n_obl == 0:
         lines.append("CHECKER-ERROR property=%s zero obligations generated" % pid)
         bump(3)
